@@ -387,6 +387,7 @@ type Case struct {
 	Kind  string `json:"kind"`
 	ID    int    `json:"id"`
 	Cfg   string `json:"cfg"`
+	Root  int    `json:"root"`
 	Class string `json:"class"`
 	RClass string `json:"rclass"`
 	Req   Req    `json:"req"`
@@ -757,7 +758,7 @@ func main() {
 							HStatus: statuses[k%len(statuses)]}
 						k++
 						id++
-						out.Put(Case{Kind: "case", ID: id, Cfg: c.Name, Class: hc.name, RClass: t.rclass, Req: q, Obs: do(r, q)})
+						out.Put(Case{Kind: "case", ID: id, Cfg: c.Name, Root: root, Class: hc.name, RClass: t.rclass, Req: q, Obs: do(r, q)})
 					}
 				}
 			}
@@ -778,7 +779,7 @@ func main() {
 				q := Req{Method: t.method, Path: t.path, HasAuth: true, Auth: hx.Hex(hc.val), Gzip: rnd.Intn(2) == 0, Origin: rnd.Intn(2) == 0,
 					HStatus: statuses[rnd.Intn(len(statuses))]}
 				id++
-				out.Put(Case{Kind: "case", ID: id, Cfg: c.Name, Class: hc.name, RClass: "route", Req: q, Obs: do(r, q)})
+				out.Put(Case{Kind: "case", ID: id, Cfg: c.Name, Root: root, Class: hc.name, RClass: "route", Req: q, Obs: do(r, q)})
 			}
 			// positive control of the back-end log: the REAL handlers, reached with and without the credentials
 			if ci == 0 {
@@ -791,7 +792,7 @@ func main() {
 							}
 							q := Req{Method: t.method, Path: t.path, HasAuth: hc.has, Auth: hx.Hex(hc.val), HStatus: 0, Exec: true}
 							id++
-							out.Put(Case{Kind: "exec", ID: id, Cfg: c.Name, Class: hc.name, RClass: "exec", Req: q, Obs: do(r, q)})
+							out.Put(Case{Kind: "exec", ID: id, Cfg: c.Name, Root: root, Class: hc.name, RClass: "exec", Req: q, Obs: do(r, q)})
 						}
 					}
 				}
@@ -865,16 +866,17 @@ func runReplay(path string, asm *Assembly, configs []Config, cfg *clconfig.Cloki
 		case "case", "exec":
 			var c Case
 			json.Unmarshal(line, &c)
-			r := routers[c.Cfg]
+			key := fmt.Sprintf("%s#%d", c.Cfg, c.Root)
+			r := routers[key]
 			if r == nil {
 				for _, cf := range configs {
 					if cf.Name == c.Cfg {
 						env, _ := envOf(asm, cf)
 						b := build(asm, cf, env, cfg)
-						if len(b.served) > 0 {
-							r = b.routers[b.served[0]]
+						if rr := b.routers[c.Root]; rr != nil {
+							r = rr
 							instrument(r)
-							routers[c.Cfg] = r
+							routers[key] = r
 						}
 					}
 				}
